@@ -26,4 +26,5 @@ for c in $checks; do
   grep "^VIOLATION" $S/check_$c.log | head -3 >> $res
 done
 cat $res
-if [ -z "$KEEP" ]; then git -C /repo worktree remove --force $E; rm -rf $E /verif/.build-*/; fi
+tag=$(python3 -c "import hashlib,sys;print(hashlib.sha1(sys.argv[1].encode()).hexdigest()[:10])" $E)
+if [ -z "$KEEP" ]; then git -C /repo worktree remove --force $E; rm -rf $E /verif/.build-$tag; fi
